@@ -55,6 +55,18 @@ makes the schedules as adversarial as it can:
     No worker may see an exception and the counters of the algorithm must
     account for every trial.
 
+  * WHO MAKES THE pg.sample CALL of a worker: the worker thread itself (the
+    usual way), or another thread that hands the iterator over -- the
+    coordinating thread before it starts the workers (the way one writes
+    `executor.map(work, [pg.sample(...) for _ in range(W)])`), a helper thread
+    that is gone when the workers run, a fellow worker.  The worker is the
+    thread that iterates: workers without `group` are groups of their own
+    ("if `group` is not specified ... every worker will work on different
+    trials"), co-workers share their pending trial, whoever made the call.
+    Mixed into the grids (1 scenario in 4), two pressure scenarios, and a
+    block of deterministic lock-step specs (`maker`); group and delivery
+    findings of this class carry `/iterator-made-by-another-thread`.
+
 At quiescence the invariants of the statement are checked on
 `pg.poll_result(name)`, the probe's log and the per-worker logs.  Every run
 uses a unique study name.  A failure found by sampling is definite; absence of
@@ -598,7 +610,15 @@ class _RunLog:
     self.policy = None    # the early stopping policy, if the workers share one
 
 
-def _worker(cfg, widx, group, leader, algo, space, name, log, evs, start_evt, first_evt, r):
+def _make_loop(cfg, group, algo, space, name, log):
+  """The pg.sample call of one worker (by the worker itself or on its behalf)."""
+  policy = (log.policy or C16Policy()) if cfg['policy'] else None
+  return iter(pg.sample(space, algo, num_examples=cfg['N'], early_stopping_policy=policy,
+                        name=name, group=group))
+
+
+def _worker(cfg, widx, group, leader, algo, space, name, log, evs, start_evt, first_evt, r,
+            loop=None):
   try:
     if cfg['trace'] or cfg['probe_yield']:
       _tls.rng = r
@@ -641,13 +661,12 @@ def _worker(cfg, widx, group, leader, algo, space, name, log, evs, start_evt, fi
       start_evt.wait()
     racing = _scenario(cfg) == 'co-workers-racing-finishers'
     single = _scenario(cfg) == 'co-workers-single-finisher'
-    policy = (log.policy or C16Policy()) if cfg['policy'] else None
     tick = log.tick
     done_n = 0
     last_seen = None
     since = 0.0
-    it = iter(pg.sample(space, algo, num_examples=cfg['N'], early_stopping_policy=policy,
-                        name=name, group=group))
+    # (`loop`: the iterator was made for this worker by another thread)
+    it = loop if loop is not None else _make_loop(cfg, group, algo, space, name, log)
     while True:
       asked[0] = next(tick)
       try:
@@ -799,6 +818,32 @@ def run_scenario(cfg, seed_tag):
     leaders.setdefault(g if g is not None else ('solo', i), i)
   start_evt = threading.Event() if cfg['start'] == 'simultaneous' else None
   first_evt = threading.Event() if cfg['start'] == 'staggered' else None
+  # Who makes the pg.sample call of a worker: the worker thread itself, or
+  # another thread that hands the iterator over (this thread, the way one
+  # writes `executor.map(work, [pg.sample(...) for _ in range(W)])`, or a
+  # helper thread that is gone when the workers run).  A worker is whoever
+  # iterates: which thread made the call says nothing about its group.
+  maker = cfg.get('maker', 'own')
+  loops = [None] * w
+  if maker != 'own':
+    def make_all():
+      try:
+        for i in range(w):
+          loops[i] = _make_loop(cfg, groups[i], algos[i], space, name, log)
+      except BaseException as e:  # pylint: disable=broad-except
+        tb = traceback.extract_tb(e.__traceback__)
+        where = ' <- '.join(f'{os.path.basename(f.filename)}:{f.lineno}:{f.name}' for f in tb[-4:])
+        log.errors.append(('maker', f'{type(e).__name__}: {e} [{where}]'))
+    if maker == 'coordinator':
+      make_all()
+    else:
+      ht = threading.Thread(target=make_all, daemon=True)
+      ht.start()
+      ht.join(30.0)
+      if ht.is_alive():
+        log.errors.append(('maker', 'the thread making the pg.sample calls is stuck'))
+    if log.errors:
+      return dict(cfg=cfg, name=name, groups=groups, algos=algos, log=log, hung=[], result=None)
   threads = []
   for i in range(w):
     evs = []
@@ -809,7 +854,7 @@ def run_scenario(cfg, seed_tag):
     t = threading.Thread(
         target=_worker,
         args=(cfg, i, g, leader, algos[i], space, name, log, evs,
-              start_evt, first_evt if i == 0 else None, r),
+              start_evt, first_evt if i == 0 else None, r, loops[i]),
         daemon=True)
     threads.append(t)
   if cfg['start'] == 'staggered':
@@ -859,6 +904,27 @@ def check_run(obs):
 
   put('liveness.all-workers-terminate', not obs['hung'],
       f'workers {obs["hung"]} still running after 30 s')
+  # --- delivery to exactly one group -------------------------------------------
+  # (A worker whose pg.sample call was made by another thread is an input class
+  # of its own.  What goes wrong there is looked at first: workers that are
+  # wrongly given one trial run into each other, the rest are consequences.)
+  msfx = '' if cfg.get('maker', 'own') == 'own' else '/iterator-made-by-another-thread'
+  groups = obs['groups']
+  delivered, holders = {}, {}
+  for wi, evs in enumerate(list(log.events)):
+    g = groups[wi] if groups[wi] is not None else ('thread', wi)
+    for e in list(evs):
+      if e[1] == 'recv':
+        delivered.setdefault(e[2], set()).add(g)
+        holders.setdefault((e[2], e[3]), set()).add(g)     # (the trial object)
+  multi = {t: sorted(map(str, gs)) for t, gs in delivered.items() if len(gs) > 1}
+  if msfx:
+    multi_obj = {k[0]: sorted(map(str, gs)) for k, gs in holders.items() if len(gs) > 1}
+    put(f'delivery.exactly-one-group{msfx}', not multi_obj,
+        f'groups {groups} (None: a worker of its own); trials delivered to several groups: '
+        f'{dict(sorted(multi_obj.items())[:6])}')
+    if multi_obj:
+      return out
   # (Known on the unchanged tree, about 1 run in 900 with racing co-workers:
   # building the RaceConditionError message formats the trial while the
   # co-worker's feedback updates the DNA metadata -> RuntimeError.)
@@ -874,6 +940,11 @@ def check_run(obs):
   lazy = cfg['algos'] == 'shared' and not cfg.get('presetup', True)
   ssfx = '/shared-algorithm-set-up-by-the-workers' if lazy else ''
   setups = [a.__dict__.get('_c16_setups') for a in uniq]
+  maker_err = [e for e in log.errors if e[0] == 'maker']
+  if maker_err:
+    put(f'worker.no-unexpected-exception/{scen}{msfx}', False,
+        f'the pg.sample calls made on behalf of the workers failed: {maker_err[:2]}')
+    return out
   early_policy = [e for e in log.errors if 'C16Policy asked before' in e[1]]
   if early_policy:
     put(f'worker.no-unexpected-exception/{scen}/shared-policy-set-up-by-the-workers', False,
@@ -938,16 +1009,8 @@ def check_run(obs):
     dnas = [tuple(t.dna.to_numbers()) for t in trials]
     put('trials.distinct-dna-proposals', len(set(dnas)) == len(dnas),
         f'two trials share one proposal of {cfg["algo"]}, which never proposes a DNA twice: {dnas}')
-  # --- delivery --------------------------------------------------------------
-  groups = obs['groups']
-  delivered = {}
-  for wi, evs in enumerate(log.events):
-    g = groups[wi] if groups[wi] is not None else ('thread', wi)
-    for e in evs:
-      if e[1] == 'recv':
-        delivered.setdefault(e[2], set()).add(g)
-  multi = {t: sorted(map(str, gs)) for t, gs in delivered.items() if len(gs) > 1}
-  put('delivery.exactly-one-group', not multi, f'trials delivered to several groups: {multi}')
+  # --- delivery (see above) ------------------------------------------------------
+  put(f'delivery.exactly-one-group{msfx}', not multi, f'trials delivered to several groups: {multi}')
   auto = {t.id for t in trials if t.metadata.get('client_evaluation_skipped')}
   undelivered = [t for t in ids if t not in delivered and t not in auto]
   put('delivery.every-trial-delivered', not undelivered,
@@ -1135,6 +1198,13 @@ def _pressure(seed):
       # more often, see _scenarios.
       dict(base, W=8, N=8, layout='none', actions=('done',), algo='random', trace=False,
            salt=seed + 4, rewards='decreasing'),
+      # The pg.sample calls are made for the workers by another thread (by the
+      # coordinator that starts them / by a helper thread that is gone by then).
+      # Workers without `group` are groups of their own all the same.
+      dict(base, W=4, N=12, layout='none', actions=('done', 'done2', 'skip'), algo='random',
+           trace=True, salt=seed + 5, maker='coordinator'),
+      dict(base, W=7, N=14, layout='none', actions=('done',), algo='regevo', trace=False,
+           salt=seed + 6, maker='helper-thread', start='simultaneous', rewards='mod5'),
   ]
 
 
@@ -1142,6 +1212,9 @@ def _scenarios(tier, seed):
   """Yields (cfg, repeats): pressure scenarios, then the two grids interleaved."""
   for cfg in _pressure(seed):
     many = cfg['rewards'] == 'decreasing'
+    if cfg.get('maker'):
+      yield cfg, (2 if tier == 'quick' else 6)
+      continue
     yield cfg, ((12 if many else 5) if tier == 'quick' else (30 if many else 8))
   g1, g2 = _grid1(tier, seed), _grid2(tier, seed)
   while g1 is not None or g2 is not None:
@@ -1175,9 +1248,23 @@ def _vary_algorithm(cfg, r2):
     cfg['policy_shared'] = True
 
 
+_MAKERS = ('coordinator', 'helper-thread')
+
+
+def _vary_maker(cfg, r3):
+  """In 1 scenario of 4 the pg.sample calls are made by another thread.
+
+  (Drawn from a generator of its own, like _vary_algorithm.)
+  """
+  u, mk = r3.random(), r3.choice(_MAKERS)
+  if u < 0.25:
+    cfg['maker'] = mk
+
+
 def _grid1(tier, seed):
   r = rng(seed, 'c16-scenarios')
   r2 = rng(seed, 'c16-scenarios-algorithms')
+  r3 = rng(seed, 'c16-scenarios-makers')
   quick = tier == 'quick'
   k = 0
   for w in range(2, 9):
@@ -1210,6 +1297,7 @@ def _grid1(tier, seed):
             sync=(lay != 'pairs-single' and not brk and r.random() < 0.4),
             salt=r.randrange(1000))
         _vary_algorithm(cfg, r2)
+        _vary_maker(cfg, r3)
         if quick and (k + seed) % _QUICK_STRIDE != 0:
           continue
         yield cfg, (1 if quick else 2)
@@ -1238,6 +1326,7 @@ _QUICK_STRIDE2 = 5
 def _grid2(tier, seed):
   r = rng(seed, 'c16-scenarios-grid2')
   r2 = rng(seed, 'c16-scenarios-grid2-algorithms')
+  r3 = rng(seed, 'c16-scenarios-grid2-makers')
   quick = tier == 'quick'
   k = 0
   for w in (2, 3, 4, 5, 6, 8):
@@ -1277,6 +1366,7 @@ def _grid2(tier, seed):
             sync=(lay != 'pairs-single' and not brk and r.random() < 0.3),
             salt=r.randrange(1000), gids=gids, feature=feat)
         _vary_algorithm(cfg, r2)
+        _vary_maker(cfg, r3)
         if quick and (k + seed) % _QUICK_STRIDE2 != 0:
           continue
         yield cfg, (1 if quick else 2)
@@ -1316,7 +1406,9 @@ def drv_concurrent_sampling(tier, seed):
              'Deduping(hill_climb, auto_reward_fn); '
              'in 1 grid scenario of 4 an algorithm whose needs_feedback is False instead (see the fourth driver); '
              'shared (set up beforehand; in 1 grid scenario of 5 by the workers, _setup 0 / 3 / 20 ms) or one per '
-             'worker; staggered and barrier-released starts; optional '
+             'worker; in 1 grid scenario of 4 and in 2 more pressure scenarios the pg.sample calls of the '
+             'workers are made by the coordinating thread or by a helper thread and the iterators handed '
+             'over; staggered and barrier-released starts; optional '
              'rendezvous so that all workers finish their trials at the same moment; 5 such pressure '
              'scenarios always (5 resp. 8 runs each; 12 resp. 30 of the one with decreasing rewards); '
              + (f'quick: 1 run of every {_QUICK_STRIDE}th scenario of the grid W x mix x layout (offset by seed)'
@@ -1341,7 +1433,7 @@ def drv_concurrent_sampling(tier, seed):
           obs = run_scenario(cfg, f'{seed}-{si}-{rep}')
           res = check_run(obs)
           key = (si, rep, cfg['W'], cfg['N'], cfg['layout'], cfg['actions'], cfg['algo'],
-                 cfg['start'], cfg['trace'], cfg.get('presetup', True))
+                 cfg['start'], cfg['trace'], cfg.get('presetup', True), cfg.get('maker', 'own'))
           for cid, (ok, msg) in res.items():
             rec.case(cid, key, ok, msg, _witness(cfg, cid))
   finally:
@@ -1360,6 +1452,14 @@ def _nofb_scenarios(tier, seed):
   """Yields (cfg, repeats)."""
   quick = tier == 'quick'
   r = rng(seed, 'c16-nofb')
+  r3 = rng(seed, 'c16-nofb-makers')
+  for cfg, reps in _nofb_scenarios0(tier, seed, r):
+    _vary_maker(cfg, r3)
+    yield cfg, reps
+
+
+def _nofb_scenarios0(tier, seed, r):
+  quick = tier == 'quick'
   base = dict(algos='shared', probe_yield=True, p_cold=0.03, p_hot=0.3, space=_WIDE_SPACE_EXPR)
   mixes = [_MIXES[0], _MIXES[0], _MIXES[1], _MIXES[2], _MIXES[5], _MIXES[4]]
   # (a) every kind of algorithm whose needs_feedback is False, shared by
@@ -1428,7 +1528,8 @@ def drv_algorithms_without_feedback(tier, seed):
           obs = run_scenario(cfg, f'{seed}-nf{si}-{rep}')
           res = check_run(obs)
           key = (si, rep, cfg['W'], cfg['N'], cfg['layout'], cfg['actions'], cfg['algo'],
-                 cfg['start'], cfg['trace'], cfg.get('presetup', True), cfg.get('slow_setup'))
+                 cfg['start'], cfg['trace'], cfg.get('presetup', True), cfg.get('slow_setup'),
+                 cfg.get('maker', 'own'))
           for cid, (ok, msg) in res.items():
             rec.case(cid, key, ok, msg, _witness(cfg, cid))
   finally:
@@ -1555,6 +1656,12 @@ def _ls_worst_class(gs):
   return min((_gid_class(g) for g in gs), key=order.index)
 
 
+def _ls_make_loops(spec, g, name, algo, space):
+  """All pg.sample calls one lock-step worker of group `g` needs (entry + re-entries)."""
+  return [iter(pg.sample(space, algo, num_examples=spec['N'], name=name, group=g, **spec['kw']))
+          for _ in range(spec['rounds'] // 2 + 1)]
+
+
 def _ls_worker(spec, widx, g, k, kk, name, algo, space, shared):
   """One lock-step worker: co-worker `k` of `kk` of group `g`."""
   barrier, rec, outcome, errors = (shared['barrier'], shared['rec'], shared['outcome'],
@@ -1562,8 +1669,18 @@ def _ls_worker(spec, widx, g, k, kk, name, algo, space, shared):
   try:
     _tls.window = 2e-3      # (inside the sequential code of the probes' public hooks)
     kw = dict(spec['kw'])
+    maker = spec.get('maker', 'worker')
+    if maker == 'peer':
+      # every worker makes the pg.sample calls of its neighbour and hands the
+      # iterators over; nobody iterates before all are handed over.
+      members = shared['members']
+      tgt = (widx + 1) % len(members)
+      shared['loops'][tgt] = _ls_make_loops(spec, members[tgt][0], name, algo, space)
+      barrier.wait()
 
     def loop():
+      if maker != 'worker':
+        return shared['loops'][widx].pop(0)     # made for this worker by another thread
       return iter(pg.sample(space, algo, num_examples=spec['N'], name=name, group=g, **kw))
 
     it = loop()
@@ -1659,7 +1776,21 @@ def run_lockstep(spec, tag):
     members.extend((g, k, spec['K']) for k in range(spec['K']))
   members.extend((None, 0, 1) for _ in range(spec['solos']))
   shared = dict(barrier=threading.Barrier(len(members), timeout=_BARRIER_SECS),
-                rec={}, outcome={}, errors=[], notes=[])
+                rec={}, outcome={}, errors=[], notes=[], members=members, loops={})
+  maker = spec.get('maker', 'worker')
+  # (the class "the pg.sample call of a worker was made by another thread" has
+  # its own ids for what concerns groups and delivery)
+  msfx = '' if maker == 'worker' else '/iterator-made-by-another-thread'
+  if maker == 'coordinator':
+    # this thread makes the calls and hands every worker its iterators.
+    try:
+      for i, (g, _, _) in enumerate(members):
+        shared['loops'][i] = _ls_make_loops(spec, g, name, algo, space)
+    except Exception as e:  # pylint: disable=broad-except
+      tb = traceback.extract_tb(e.__traceback__)
+      where = ' <- '.join(f'{os.path.basename(f.filename)}:{f.lineno}:{f.name}' for f in tb[-3:])
+      return {f'worker.no-unexpected-exception/lock-step{msfx}': (
+          False, f'pg.sample(...) called on behalf of the workers: {type(e).__name__}: {e} [{where}]')}
   threads = [threading.Thread(target=_ls_worker, daemon=True,
                               args=(spec, i, g, k, kk, name, algo, space, shared))
              for i, (g, k, kk) in enumerate(members)]
@@ -1687,7 +1818,8 @@ def run_lockstep(spec, tag):
     put('result.poll/lock-step', False, f'pg.poll_result({name!r}) does not know the study')
     return out
   ssfx = '' if spec.get('presetup', True) else '/shared-algorithm-set-up-by-the-workers'
-  if ssfx and shared['errors'] and not _only_formatting_race(shared['errors']):
+  entry_failed = bool(ssfx and shared['errors'] and not _only_formatting_race(shared['errors']))
+  if entry_failed and not msfx:
     # (a worker that fails on entry breaks the barriers: the rest follows from it)
     put(f'worker.no-unexpected-exception/lock-step{ssfx}', False,
         f'worker errors: {shared["errors"][:3]}; _setup ran {algo.__dict__.get("_c16_setups")} time(s)')
@@ -1734,15 +1866,41 @@ def run_lockstep(spec, tag):
           bad_new.append((rnd, gk, ptid, tid))
       prev[gk] = (tid, spec['finish'][rnd])
   gcls = _ls_worst_class(spec['gids']) if spec['gids'] else 'none'
+  if msfx:
+    # (first: one trial in the hands of two groups makes the workers run into
+    # each other, everything else follows from it)
+    # workers without `group` are groups of their own (('thread', i) here)
+    # whichever thread made their pg.sample call.
+    if foreign:
+      put('study.one-study-per-name/lock-step', False,
+          f'(round, worker, trial) delivered trials that are not in pg.poll_result(name): {foreign[:4]}')
+      return out
+    solo = [b for b in bad_disjoint if isinstance(b[2], tuple) and isinstance(b[3], tuple)]
+    rest = [b for b in bad_disjoint if b not in solo]
+    if spec['solos'] and spec['gids']:
+      put(f'delivery.exactly-one-group/lock-step/group-ids=none{msfx}', not solo,
+          f'(round, trial, first group, other group) among the workers without group: {solo[:4]}')
+      put(f'delivery.exactly-one-group/lock-step/group-ids={gcls}{msfx}', not rest,
+          f'(round, trial, first group, other group): {rest[:4]}')
+    else:
+      put(f'delivery.exactly-one-group/lock-step/group-ids={gcls}{msfx}', not bad_disjoint,
+          f'(round, trial, first group, other group): {bad_disjoint[:4]}')
+    if bad_disjoint:
+      return out
+    if entry_failed:
+      put(f'worker.no-unexpected-exception/lock-step{ssfx}', False,
+          f'worker errors: {shared["errors"][:3]}; _setup ran {algo.__dict__.get("_c16_setups")} time(s)')
+      return out
   put('study.one-study-per-name/lock-step', not foreign,
       f'(round, worker, trial) delivered trials that are not in pg.poll_result(name): {foreign[:4]}')
-  put(f'group.co-workers-share-pending-trial/lock-step/group-ids={gcls}', not bad_share,
+  put(f'group.co-workers-share-pending-trial/lock-step/group-ids={gcls}{msfx}', not bad_share,
       f'groups {members}: (round, group, trial ids handed to its co-workers): {bad_share[:4]}')
-  put(f'delivery.exactly-one-group/lock-step/group-ids={gcls}', not bad_disjoint,
-      f'(round, trial, first group, other group): {bad_disjoint[:4]}')
-  put(f'group.pending-trial-kept-until-finished/lock-step/group-ids={gcls}', not bad_keep,
+  if not msfx:
+    put(f'delivery.exactly-one-group/lock-step/group-ids={gcls}', not bad_disjoint,
+        f'(round, trial, first group, other group): {bad_disjoint[:4]}')
+  put(f'group.pending-trial-kept-until-finished/lock-step/group-ids={gcls}{msfx}', not bad_keep,
       f'(round, group, pending trial, trial handed out instead): {bad_keep[:4]}')
-  put('group.new-trial-after-finish/lock-step', not bad_new,
+  put(f'group.new-trial-after-finish/lock-step{msfx}', not bad_new,
       f'(round, group, finished trial, trial handed out next): {bad_new[:4]}')
   if foreign or bad_share or bad_disjoint or bad_keep or bad_new:
     return out      # (worker errors and wrong counts are consequences then)
@@ -1810,6 +1968,31 @@ def _lockstep_specs0(tier, seed):
     yield dict(gids=[], K=1, solos=solos, rounds=rounds, finish=finish,
                N=r.choice((3 * solos, 3 * solos + 2, solos)), salt=r.randrange(100),
                reenter=True, kw={}, name='solo', space=_LS_HYPER_EXPR, pool='none')
+  # The pg.sample calls of the workers are made by another thread and the
+  # iterators are handed over: by the coordinating thread before it starts the
+  # workers (`executor.map(work, [pg.sample(...) for _ in range(W)])`), or by
+  # a fellow worker.  The worker is the thread that iterates: workers without
+  # `group` are groups of their own, co-workers share their trial, as before.
+  r = rng(seed, 'c16-lockstep-handover')
+  shapes = ((1, 0, 2), (1, 0, 4), (1, 2, 2), (2, 1, 2), (2, 2, 1), (1, 3, 0), (3, 1, 3)) + (
+      () if tier == 'quick' else ((1, 0, 7), (2, 2, 0), (2, 3, 3), (1, 1, 1)))
+  for maker in ('coordinator', 'peer'):
+    for kk, ng, solos in shapes:
+      for rep in range(1 if tier == 'quick' else 3):
+        pool = r.choice(sorted(_LS_GIDS))
+        rounds = r.choice((3, 4, 5))
+        finish = [r.random() < 0.6 for _ in range(rounds)]
+        finish[-1] = True
+        gids = list(_LS_GIDS[pool][:ng])
+        r.shuffle(gids)
+        demand = (ng + solos) * (1 + sum(finish[:-1]))
+        n = r.choice((demand + 3, demand + 3, demand, max(0, demand - 1), 1))
+        yield dict(gids=gids, K=kk, solos=solos, rounds=rounds, finish=finish, N=n,
+                   salt=r.randrange(100), reenter=r.random() < 0.5,
+                   kw=r.choice(({}, {}, {'backend': 'in-memory'})), name=r.choice(_LS_NAMES),
+                   space=r.choice((_LS_HYPER_EXPR, _SMALL_SPACE_EXPR, _SPACE_EXPR)),
+                   pool=(pool if ng else 'none'), rewards=r.choice(('positive', 'non-positive')),
+                   maker=maker)
 
 
 def _ls_witness(spec, cid):
@@ -1837,14 +2020,17 @@ def drv_lockstep_groups(tier, seed):
              'around regularized_evolution: True), whose record of the '
              'reports is plain sequential code with a 2 ms window (groups finish at the same moment); in every '
              'third spec the algorithm is set up by the pg.sample calls of the workers, which all start at '
-             'the same moment (_setup takes 0 / 5 / 30 ms); '
+             'the same moment (_setup takes 0 / 5 / 30 ms); plus a block of specs (7 shapes, thorough 11, '
+             'x 2) in which the pg.sample calls of the workers (entry and re-entries) are made by the '
+             'coordinating thread before the workers start, or by a fellow worker, and the iterators are '
+             'handed over: 2..7 workers without group alone or next to 1..3 groups of 1..3 co-workers; '
              + ('quick: 1 seeded draw per (pool, co-workers, groups)' if tier == 'quick'
                 else 'thorough: 4 seeded draws per (pool, co-workers, groups)')))
   for si, spec in enumerate(_lockstep_specs(tier, seed)):
     res = run_lockstep(spec, f'{seed}-{si}')
     key = (si, spec['pool'], spec['K'], len(spec['gids']), spec['solos'], spec['N'],
            tuple(spec['finish']), spec['reenter'], spec['name'], spec['algo'],
-           spec.get('presetup', True))
+           spec.get('presetup', True), spec.get('maker', 'worker'))
     for cid, (ok, msg) in res.items():
       rec.case(cid, key, ok, msg, _ls_witness(spec, cid))
   return rec.result()
